@@ -261,7 +261,7 @@ class Ref:
                     if with_ghost == "mem" and not f.get("_mem"):
                         continue
                     if ts not in out.get(s, {}):
-                        out.setdefault(s, {})[ts] = {x: y for x, y in f.items() if x != "_mem"}
+                        out.setdefault(s, {})[ts] = dict(f)  # keeps the classification flag "_mem"
         return {s: r for s, r in out.items() if r}
 
     def series_db(self, db, mst, with_ghost=None):
@@ -347,7 +347,8 @@ def expected(ref, db, rp, mst, kind, params, with_ghost=None, ghost_bypass=False
         tag_ok = not tagf or tagf(dict(s))
         for ts, f in r.items():
             is_ghost = ts not in live.get(s, {})
-            if not tag_ok and not (ghost_bypass and is_ghost):
+            bypass = ghost_bypass and is_ghost and not (ghost_bypass == "flushed" and f.get("_mem"))
+            if not tag_ok and not bypass:
                 continue
             if "v" not in f:
                 continue
